@@ -50,6 +50,10 @@ type Work struct {
 	Deadline bool   `json:"deadline,omitempty"` // the context also carries a deadline far in the future (a WithTimeout context cancelled early)
 	Merged   bool   `json:"merged,omitempty"`   // the context is the host's own type: Done / Err of its own, Value delegated to a live standard cancel context
 	LibCtx   int    `json:"lib_ctx,omitempty"`  // how the earlier run that defined the library was made: 0 cancellable context (never cancelled), 1 context.Background(), 2 vm.Execute, 3 vm.Execute with nil options
+	// Twin > 0: a second call runs on the same environment at the same time, under a context of its own that is
+	// never cancelled (twinPrograms[Twin-1]). It is not judged and not waited for; the cancelled call must return
+	// whatever the other one is doing.
+	Twin int `json:"twin,omitempty"`
 }
 
 var cores = []string{
@@ -64,6 +68,33 @@ var cores = []string{
 	"spin-quiet-elseif", "spin-quiet-else", "spin-quiet-switch", "spin-quiet-try", "spin-quiet-nested",
 	"block-fanin-send", "block-fanout-recv",
 	"block-recv-if", "block-recv-arg", "block-recv-switch",
+	"foreign-close", "foreign-close-blocked", "foreign-close-in-go", "foreign-feed", "foreign-drain", "foreign-drain-range", "foreign-drain-ok", "foreign-relay",
+}
+
+// foreignPrelude is run like the library prelude, by an earlier call under a context that is never cancelled, and
+// leaves goroutines behind: a sender nobody serves, a consumer, a producer. The foreign-* cores make the cancelled
+// run meet them. Those goroutines belong to another call: they are not judged and not waited for.
+const foreignPrelude = `
+fch = make(chan int64)
+go func() { fch <- 7 }()
+go func(c) { c <- 8 }(fch)
+fsink = make(chan int64)
+go func() { for v in fsink { } }()
+fsrc = make(chan int64)
+go func() { for { fsrc <- 1 } }()
+`
+
+// twinPrograms: what the second call on the same environment does meanwhile. Its names are its own (tw*).
+var twinPrograms = []string{
+	"twq = 0\nfor { twq = twq + 1; tick() }",
+	"module twm {\ntwv = 1\nfor { twv = twv + 1; tick() }\n}",
+	"func twf(a, b, c, d, e) { for { tick() } }\ntwf(1, 2, 3, 4, 5)",
+	"twc = make(chan int64)\nfor { twc <- 1 }",
+	"twc = make(chan int64)\nfor twv in twc { }",
+	"module twm { twv = 1 }\nfor { twx = twm; tick() }",
+	"func twd() { defer tick(); tick() }\nfor { twd() }",
+	"twl = []\nfor { try { throw \"x\" } catch twe { twl = [twe] } finally { tick() } }",
+	"for { go func() { tick() }(); tick(); sleep(1) }",
 }
 
 // prelude is run once, under its own never-cancelled context, on the environment the cancelled run
@@ -225,6 +256,23 @@ func renderCore(core string, u string) string {
 		return "c" + u + " = make(chan int64)\nx" + u + " = [1, <-c" + u + "]"
 	case "block-send-expr-arg":
 		return "c" + u + " = make(chan int64)\nhid(c" + u + " <- 1)"
+	// the cancelled run meets goroutines an earlier call left behind (foreignPrelude)
+	case "foreign-close":
+		return "close(fch)\nfor { tick() }"
+	case "foreign-close-blocked":
+		return "close(fch)\nc" + u + " = make(chan int64)\n<-c" + u
+	case "foreign-close-in-go":
+		return "go func() { close(fch) }()\nfor { tick() }"
+	case "foreign-feed":
+		return "for { fsink <- 1; tick() }"
+	case "foreign-drain":
+		return "for { <-fsrc; tick() }"
+	case "foreign-drain-range":
+		return "for v" + u + " in fsrc { tick() }"
+	case "foreign-drain-ok":
+		return "for { v" + u + ", ok" + u + " = <-fsrc; tick() }"
+	case "foreign-relay":
+		return "for { fsink <- <-fsrc; tick() }"
 	}
 	return "for { tick() }"
 }
@@ -456,6 +504,13 @@ func Render(w *Work) string {
 	for i := len(w.Wrappers) - 1; i >= 0; i-- {
 		body = wrap(w.Wrappers[i], body, fmt.Sprint(i))
 	}
+	if strings.HasPrefix(w.Core, "foreign-") {
+		body = "# an earlier call, under a context that is never cancelled, ran:" + strings.ReplaceAll(foreignPrelude, "\n", "\n#   ") + "\n" + body
+	}
+	if w.Twin > 0 {
+		body = "# meanwhile a second call on the same environment, under a context of its own, runs:\n#   " +
+			strings.ReplaceAll(twinPrograms[(w.Twin-1)%len(twinPrograms)], "\n", "\n#   ") + "\n" + body
+	}
 	if w.NoTrail {
 		return body + "\n"
 	}
@@ -496,6 +551,11 @@ func (Prop) Gen(seed int64, tier string) *harness.Case {
 	var w Work
 	w.Core = cores[r.Intn(len(cores))]
 	if strings.HasPrefix(w.Core, "lib-") {
+		w.LibCtx = r.Intn(4)
+	}
+	if strings.HasPrefix(w.Core, "foreign-close") {
+		// the left-over senders are released by the close itself, so they may live under any kind of context; the
+		// other foreign goroutines are released at the end of the case through their (simulated) context
 		w.LibCtx = r.Intn(4)
 	}
 	w.Deadline = r.Intn(4) == 0
@@ -547,6 +607,9 @@ func (Prop) Gen(seed int64, tier string) *harness.Case {
 				w.Wrappers[i].A = 0
 			}
 		}
+	}
+	if !hostcb && r.Intn(5) == 0 {
+		w.Twin = 1 + r.Intn(len(twinPrograms))
 	}
 	w.NoTrail = r.Intn(2) == 0
 	w.Elem = []string{"int64", "int64", "float64", "string", "bool", "interface"}[r.Intn(6)]
@@ -726,32 +789,67 @@ func run(t *testing.T, c *harness.Case, verbose bool, onlyDefers bool) *harness.
 			sim.Events = append(sim.Events, &simrt.Event{AtStep: ev.AtStep, AtQuiescence: ev.AtQuiescence,
 				AtIdleTime: time.Duration(ev.AtFakeNs), Name: "cancel", Do: cancel})
 		}
+		var others []*simrt.Ctx // contexts of the parties that are not judged; cancelled only when the case is over
+		otherCtx := func() *simrt.Ctx {
+			c := sim.NewCtx()
+			mu.Lock()
+			others = append(others, c)
+			mu.Unlock()
+			return c
+		}
 		mainTask = sim.Spawn("main", func() {
-			if strings.HasPrefix(w.Core, "lib-") {
-				// an earlier, completed run under another context defined the library
+			pre := ""
+			switch {
+			case strings.HasPrefix(w.Core, "lib-"):
+				pre = prelude
+			case strings.HasPrefix(w.Core, "foreign-"):
+				pre = foreignPrelude
+			}
+			if pre != "" {
+				// an earlier, completed run under another context defined the library / left goroutines behind
 				var perr error
 				switch w.LibCtx % 4 {
 				case 0:
-					_, perr = vm.ExecuteContext(sim.NewCtx(), e, &vm.Options{Debug: false}, prelude)
+					_, perr = vm.ExecuteContext(otherCtx(), e, &vm.Options{Debug: false}, pre)
 				case 1:
-					_, perr = vm.ExecuteContext(context.Background(), e, &vm.Options{Debug: false}, prelude)
+					_, perr = vm.ExecuteContext(context.Background(), e, &vm.Options{Debug: false}, pre)
 				case 2:
-					_, perr = vm.Execute(e, &vm.Options{Debug: false}, prelude)
+					_, perr = vm.Execute(e, &vm.Options{Debug: false}, pre)
 				default:
-					_, perr = vm.Execute(e, nil, prelude)
+					_, perr = vm.Execute(e, nil, pre)
 				}
 				if perr != nil {
 					mainErr = perr
 					mainDone = true
 					return
 				}
+				// whatever that run started belongs to it, not to the call that is about to be cancelled
+				me := simrt.CurTask()
+				for _, tk := range sim.Tasks() {
+					if tk != me && strings.HasPrefix(tk.ID, "main.") {
+						tk.Daemon = true
+						sim.Count("foreign_goroutines_left_behind")
+					}
+				}
 			}
 			_, mainErr = vm.RunContext(ctx, e, &vm.Options{Debug: false}, stmt)
 			mainDone = true
 		})
+		if w.Twin > 0 {
+			twinSrc := twinPrograms[(w.Twin-1)%len(twinPrograms)]
+			tw := sim.Spawn("twin", func() {
+				vm.ExecuteContext(otherCtx(), e, &vm.Options{Debug: false}, twinSrc)
+			})
+			tw.Daemon = true
+		}
 		res.Outcome = sim.Run()
 		fake = sim.FakeElapsed()
-		sim.Teardown(func() { ctx.Cancel() })
+		sim.Teardown(func() {
+			ctx.Cancel()
+			for _, c := range others {
+				c.Cancel()
+			}
+		})
 	})
 	res.Leaked = leaked
 	res.Steps, res.Switches, res.Contended = sim.Step, sim.Switches, sim.Contended
@@ -773,6 +871,10 @@ func run(t *testing.T, c *harness.Case, verbose bool, onlyDefers bool) *harness.
 		res.Log = append(res.Log, "events: "+fired, fmt.Sprintf("main done=%v err=%v", mainDone, mainErr))
 	}
 	sig := fmt.Sprintf("path=%s core=%s", w.path(), w.Core)
+	if w.Twin > 0 {
+		sig += fmt.Sprintf(" twin=%d", w.Twin)
+		res.Counters["second_call_on_the_same_environment"]++
+	}
 
 	if cancelAt < 0 {
 		// the program ended before any cancel instant: nothing to decide
@@ -842,7 +944,7 @@ func run(t *testing.T, c *harness.Case, verbose bool, onlyDefers bool) *harness.
 	if res.Outcome != "done" {
 		var live []string
 		for _, tk := range tasks {
-			if tk.Killed || tk.FinishedStep < 0 {
+			if (tk.Killed || tk.FinishedStep < 0) && !tk.Daemon {
 				live = append(live, tk.ID)
 			}
 		}
@@ -912,6 +1014,15 @@ func (Prop) Shrink(c *harness.Case) []*harness.Case {
 			nw := w
 			nw.Wrappers = append([]W{}, w.Wrappers...)
 			nw.Wrappers[i].A = 0
+			emit(nw, c.Events)
+		}
+	}
+	if w.Twin > 0 {
+		nw := w
+		nw.Twin = 0
+		emit(nw, c.Events)
+		if w.Twin > 1 {
+			nw.Twin = 1
 			emit(nw, c.Events)
 		}
 	}
